@@ -28,6 +28,7 @@ type Exec struct {
 	boxes     map[string]bool
 	top       *Frame
 	inlineDepth int
+	inDefer   int // >0: running deferred calls at a function exit
 	noObl     int // >0: suppress obligations (spec evaluation of real code)
 	curFn     string
 	curSafety bool
@@ -69,6 +70,8 @@ type Frame struct {
 	decEntry map[*ssa.BasicBlock]string
 	loopPre  map[*ssa.BasicBlock]*State
 	reachDone map[string]bool
+	runningDefer *deferRec // the deferred call being run (gates on it are checked now)
+	deferSite int
 	assignRows map[string]string
 	heapAllocs []*ssa.Alloc
 	parent   *Frame
